@@ -324,7 +324,10 @@ def cases(tier, seed):
 def shadow_of(a):
     import xarray as xr
 
-    return xr.DataArray(np.array(a.values), dims=a.dims, coords={k: v.variable for k, v in a.coords.items()}, name=a.name, attrs=dict(a.attrs))
+    s = xr.DataArray(np.array(a.values), dims=a.dims, coords={k: v.variable for k, v in a.coords.items()}, name=a.name, attrs=dict(a.attrs))
+    if getattr(a, "chunks", None):
+        s = s.chunk(dict(zip(a.dims, a.chunks)))  # plain xarray on dask behaves differently from plain xarray on numpy: same backing
+    return s
 
 
 F32 = [False]  # the case's data are single precision (results of some reductions are float64 all the same)
@@ -341,7 +344,7 @@ def same_values(r, s, exact=True):
     rv, sv = np.asarray(r.values), np.asarray(s.values)
     if rv.shape != sv.shape:
         return False, "shape %s vs shadow %s" % (list(rv.shape), list(sv.shape))
-    if rv.dtype != sv.dtype:
+    if rv.dtype != sv.dtype and not (not exact and rv.dtype.kind == sv.dtype.kind == "f"):
         return False, "dtype %s vs shadow %s" % (rv.dtype, sv.dtype)
     if rv.dtype.kind in "fc":
         if not exact:
@@ -515,6 +518,10 @@ def run_case(ctx, case):
             ctx.check("grid_attached", r.uxgrid is grid_now, dict(sig, expect="same grid object"), dict(det, has_grid=r.uxgrid is not None))
         if not okv or r.uxgrid is None:
             break
+        if r.size == 0:
+            done.append(nm)
+            ctx.observe("op_" + nm)
+            break  # nothing left to operate on
         a, s = r, s2
         done.append(nm)
         ctx.observe("op_" + nm)
